@@ -292,7 +292,9 @@ def crash_state_finish(run, p, line):
         return
     diff = [x for x in ("log", "disk") if f.get(x) != real[x]]
     fi = W.fields(impl_wal_line)
-    if f.get("rc") != fi.get("rc") or (fi.get("rc") == "0" and f.get("main") != fi.get("main")):
+    if f.get("rc") == "FAULT" and fi.get("exit", "").startswith("SIG"):
+        run.dist("crash_state_recovery_stores_outside_the_main_file")     # agreement, see crash_cases
+    elif f.get("rc") != fi.get("rc") or (fi.get("rc") == "0" and f.get("main") != fi.get("main")):
         diff.append("recovery")
     run.dist("crash_state_predicted_%s" % ("ok" if not diff else "differs"))
     if diff and len(run.broken) < 6:
@@ -363,11 +365,17 @@ def crash_cases(run, impl, wd, name, crc, ops, kills, model=None, pred=None):
             if cont and len(ls) == nl:
                 contres = {"run": ls[nrec], "final": ls[nrec + 1], "trace2": W.parse_trace(os.path.join(d, "trace2"))}
             if t2 and len(ls) >= 4:
-                rcm, outm, errm = vlib.run_lines(model, "wal %s/m %d\n" % (d, crc), timeout=120)
+                rcm, outm, errm = vlib.run_lines(W.big_stack(model), "wal %s/m %d\n" % (d, crc), timeout=300)
                 fm, fi = W.fields((outm + [""])[0]), W.fields(ls[3])
                 diff = [k_ for k_ in ("rc", "main", "walsz") if fm.get(k_) != fi.get(k_)]
                 if fi.get("applied", "-") != "-" and fi.get("applied") != fm.get("applied"):
                     diff.append("applied")
+                if fm.get("rc") == "FAULT" and fi.get("exit", "").startswith("SIG"):
+                    # Replay.recover: a store outside the mapped main file (undefined behaviour in C) - the implementation's
+                    # recovery dies of a signal: model and implementation agree; that the recovery of these files fails is
+                    # the oracle's business (the same kill is judged below)
+                    diff = []
+                    run.dist("recovery_predicted_store_outside_the_main_file")
                 if pred is not None:
                     pending.append(crash_state_prepare(pred, name, crc, kills[ci][0], os.path.join(d, "m"), ls[3]))
                 has_mark = b"\x7f\x00\x00\x00\x00\x00\x00\x00\x04\x00\x00\x00\x06\x00\x00\x00" in open(os.path.join(d, "m", "db-wal"), "rb").read()
